@@ -88,6 +88,28 @@ def bigintRnd (P : Params) (bs : Bytes) : Option (Option Nat × Bytes) :=
   | none => none
   | some (m, rest) => some (Nat'.encode P m, rest)
 
+/-- `PrivateKey::gen(ctx)` of num-bigint from RNG bytes: one `rnd_exp`, public element `g^sk`;
+    result (sk, pk element, remaining bytes) -/
+def bigintKeyGen (P : Params) (fl : Flavour) (bs : Bytes) : Option (Nat × Nat × Bytes) :=
+  match bigintRndExp P bs with
+  | none => none
+  | some (x, rest) => some (x, pkOf (natOps P fl) x, rest)
+
+/-- `util::random_ciphertexts(n, ctx)` (sequential build): n times (mhr := rnd(), gr := rnd()),
+    in this order; the inner `none` of `bigintRnd` is the `expect` panic -/
+def bigintRandomCts (P : Params) : Nat → Bytes → Option (List (Ciphertext Nat) × Bytes)
+  | 0, bs => some ([], bs)
+  | n + 1, bs =>
+    match bigintRnd P bs with
+    | some (some a, r1) =>
+      match bigintRnd P r1 with
+      | some (some b, r2) =>
+        match bigintRandomCts P n r2 with
+        | some (cs, r3) => some ({ mhr := a, gr := b } :: cs, r3)
+        | none => none
+      | _ => none
+    | _ => none
+
 /-- number of `rnd_exp` draws of each randomised operation (N = number of ciphertexts) -/
 def drawCount : String → Nat → Nat
   | "encrypt", _ => 1
